@@ -856,12 +856,16 @@ class Unit:
         sig = re.sub(r'\bconst\s+(unsafe\s+)?fn\b', r'\1fn', sig)
         if sig != sig0:
             self.log.append({'rule': 'drop-const-qualifier', 'where': where})
-        is_trait_impl = bool(re.match(r'impl\b.*\bfor\b', scope))
+        is_trait_impl = bool(re.match(r'impl\b.*\bfor\b', scope)) and 'selfty' not in opts
         if not re.match(r'pub\b', sig) and not is_trait_impl:
             sig = 'pub ' + sig  # R8
         sig = re.sub(r'^pub\s*\([^)]*\)', 'pub', sig)
         if out_name != name:
             sig = re.sub(r'\bfn\s+' + re.escape(name) + r'\b', 'fn ' + out_name, sig, count=1)
+        if 'selfty' in opts:
+            # R5: a trait-impl method emitted as a free/inherent function: `Self` spelled out
+            sig = re.sub(r'\bSelf\b', opts['selfty'], sig)
+            self.log.append({'rule': 'R5', 'where': where, 'note': 'trait impl method extracted as a plain function; Self -> ' + opts['selfty']})
         if 'ret' in opts:
             m = re.search(r'->\s*(.*)$', sig, flags=re.S)
             if not m:
@@ -870,6 +874,12 @@ class Unit:
         sig = re.sub(r'\bimpl\s+Evaluator\b', 'SimpleEvaluator', sig) if opts.get('mono_eval') else sig
         # ---- body rewrites
         fbody = strip_docs(fbody, self.log, where)
+        if 'selfty' in opts:
+            mk = mask_code(fbody)
+            outp, lastp = [], 0
+            for mm in re.finditer(r'\bSelf\b', mk):
+                outp.append(fbody[lastp:mm.start()]); outp.append(opts['selfty']); lastp = mm.end()
+            outp.append(fbody[lastp:]); fbody = ''.join(outp)
         sig, fbody = rw_R15_mut_self(sig, fbody, self.log, where)
         sig, fbody = rw_mut_param(sig, fbody, self.log, where)
         o2 = {'subst': self.subst_rules.get(name, []) + self.subst_rules.get(where, []),
